@@ -46,29 +46,29 @@ func c18Scenarios(cfg runCfg) []Scenario {
 		}
 	}
 	// (b) wide ranges: bit-length bands
-	for j := 0; j < cfg.n(1600, 5); j++ {
+	for j := 0; j < cfg.n(1600, 40); j++ {
 		add(Scenario{Family: "bands", Seed: mix(cfg.seed, 18, 3, uint64(j))})
 	}
-	for j := 0; j < cfg.n(160, 5); j++ {
+	for j := 0; j < cfg.n(160, 40); j++ {
 		add(Scenario{Family: "floatbands", Seed: mix(cfg.seed, 18, 4, uint64(j))})
 	}
 	// (a') tiny float ranges, every representable value (ULP level)
-	for j := 0; j < cfg.n(1600, 5); j++ {
+	for j := 0; j < cfg.n(1600, 40); j++ {
 		add(Scenario{Family: "floatulp", Seed: mix(cfg.seed, 18, 8, uint64(j))})
 	}
 	// (b') every integer kind x {full, Min, Max} form: type extremes, zero and the top bit band of the kind
-	for j := 0; j < cfg.n(360, 5); j++ {
+	for j := 0; j < cfg.n(360, 40); j++ {
 		add(Scenario{Family: "kinds", Seed: mix(cfg.seed, 18, 9, uint64(j)), K: j % 12, N: (j / 12) % 3})
 	}
 	// (c) edges
-	for j := 0; j < cfg.n(6400, 5); j++ {
+	for j := 0; j < cfg.n(6400, 40); j++ {
 		add(Scenario{Family: "edges", Seed: mix(cfg.seed, 18, 5, uint64(j))})
 	}
 	// (d) freshness
-	for j := 0; j < cfg.n(160, 5); j++ {
+	for j := 0; j < cfg.n(160, 40); j++ {
 		add(Scenario{Family: "fresh", Seed: mix(cfg.seed, 18, 6, uint64(j))})
 	}
-	for j := 0; j < cfg.n(32, 4); j++ {
+	for j := 0; j < cfg.n(32, 16); j++ {
 		add(Scenario{Family: "fresh-concurrent", Seed: mix(cfg.seed, 18, 7, uint64(j))})
 	}
 	return out
